@@ -2,6 +2,7 @@ package main
 
 import (
 	"fmt"
+	"go/token"
 	"go/types"
 	"os"
 	"strings"
@@ -339,8 +340,8 @@ func checkReadWidth(p *Program, r *Report) {
 	f := p.MustFunc("(*Reader).newBlockReader")
 	fk := funcKey(f)
 	cfg := &simCfg{
-		Event:           map[string]bool{"(*Reader).getBlock": true, "newBlockReader": true},
-		Keep:            map[string]bool{"(*Reader).getBlock": true, "newBlockReader": true},
+		Event:  map[string]bool{"(*Reader).getBlock": true, "newBlockReader": true},
+		Keep:   map[string]bool{"(*Reader).getBlock": true, "newBlockReader": true},
 		Pure:   map[string]bool{"extractBlockSize": true, "headerSize": true},
 		Opaque: map[string]bool{"fmt.Errorf": true},
 	}
@@ -408,4 +409,70 @@ func checkReadWidth(p *Program, r *Report) {
 		r.ok("READ-WIDTH", key, fmt.Sprintf("%d opening paths: width = block size, no block size, or own size > block size", n))
 	}
 	r.floor("READ-WIDTH", n, 2, "paths of "+fk+" that open a block")
+}
+
+// SINGLE-DECODER: how far a block iterator steps over a record is decided by
+// that record's decoder and by nothing else.  A second, hand-written notion of
+// "the size of a record" (a value-skipping fast path of the seek scan, say) can
+// disagree with the decoder for some value type; the scan then continues in the
+// middle of a record although a full scan of the same block is fine.  Every
+// function that advances a block iterator's offset by an increment must invoke
+// record.decode itself.
+func checkSingleDecoder(p *Program, r *Report) {
+	bi := p.namedType("blockIter")
+	st, _ := bi.Underlying().(*types.Struct)
+	off := -1
+	for i := 0; st != nil && i < st.NumFields(); i++ {
+		if b, ok := st.Field(i).Type().Underlying().(*types.Basic); ok && b.Kind() == types.Uint32 {
+			off = i
+		}
+	}
+	if off < 0 {
+		fatalf("unresolved anchor: offset field (uint32) of blockIter")
+	}
+	n := 0
+	for _, f := range p.Funcs {
+		for _, b := range f.Blocks {
+			for _, ins := range b.Instrs {
+				sto, ok := ins.(*ssa.Store)
+				if !ok {
+					continue
+				}
+				fa, ok := sto.Addr.(*ssa.FieldAddr)
+				if !ok || fa.Field != off {
+					continue
+				}
+				pt, ok := fa.X.Type().Underlying().(*types.Pointer)
+				if !ok || !types.Identical(pt.Elem(), bi) {
+					continue
+				}
+				add, ok := sto.Val.(*ssa.BinOp)
+				if !ok || add.Op != token.ADD {
+					continue // a reset to a restart point or to the start of the block
+				}
+				isIncr := false
+				for _, opnd := range []ssa.Value{add.X, add.Y} {
+					if ld, ok := opnd.(*ssa.UnOp); ok && ld.Op == token.MUL {
+						if fa2, ok := ld.X.(*ssa.FieldAddr); ok && fa2.Field == off {
+							if pt2, ok := fa2.X.Type().Underlying().(*types.Pointer); ok && types.Identical(pt2.Elem(), bi) {
+								isIncr = true
+							}
+						}
+					}
+				}
+				if !isIncr {
+					continue
+				}
+				n++
+				decodes := len(callsDirect(f, "method:(record).decode")) > 0
+				key := funcKey(f) + " / the offset advances by what the record decoder consumed"
+				if !decodes {
+					r.violate("SINGLE-DECODER", key, p.pos(sto.Pos()), funcKey(f)+" advances the block iterator by an amount that does not come from record.decode: a second implementation of record sizes can disagree with the decoder for some value type, and a seek then lands inside a record", nil)
+				} else {
+					r.ok("SINGLE-DECODER", key, "the advancing function invokes record.decode")
+				}
+			}
+		}
+	}
+	r.floor("SINGLE-DECODER", n, 1, "functions advancing a block iterator's offset")
 }
